@@ -1,0 +1,12 @@
+//go:build verif
+
+package partitions
+
+// VerifMsgpNew lists constructors of the unexported types of this package that have msgp
+// generated code, for the serialization check (C08). No logic.
+var VerifMsgpNew = map[string]func() interface{}{
+	"item": func() interface{} { return new(item) },
+	"location": func() interface{} { return new(location) },
+	"partition": func() interface{} { return new(partition) },
+	"partitionsDecode": func() interface{} { return new(partitionsDecode) },
+}
